@@ -167,7 +167,7 @@ def d45(ctx, rep, prog):
     pp = [k for k in prog.find('parallel_parse', crate='typeshare#bin') if prog.bodies[k]['kind'] == 'fn']
     if len(pp) != 1:
         raise core.Incomplete('parallel_parse not found')
-    kids = prog.children.get(pp[0], [])
+    kids = [pp[0]] + list(prog.children.get(pp[0], []))
     folds = [(k, c) for k in kids for c in prog.bodies[k]['calls'] if c['callee'].endswith('AddAssign>::add_assign') or 'add_assign' in c['callee']]
     ok = bool(folds) and any('BTreeMap' in ' '.join(prog.bodies[k]['locals'].values()) for k, _ in folds)
     rep.check(ok, 'D4', 'collector:ordered-map-fold', 'per-file results folded with += into a BTreeMap keyed by crate', 'the collector no longer folds per-file results with `+=` into an ordered map keyed by crate name', {'file': 'cli/src/parse.rs', 'line': prog.bodies[pp[0]]['line']})
